@@ -157,6 +157,15 @@ def body_for(kind, op, k):
         d = {'error': 'ForbiddenOperationException',
              'errorMessage': 'Invalid credentials %d.' % k}
         return json.dumps(d).encode(), 'application/json', d
+    if kind.startswith('full_ws'):
+        # insignificant JSON whitespace around the error object
+        d = {'error': 'ForbiddenOperationException',
+             'errorMessage': 'Invalid token %d.' % k}
+        pre, post = {'full_ws_lf': ('\n', ''), 'full_ws_crlf': ('\r\n', '\r\n'),
+                     'full_ws_sp': ('  \t', ' '), 'full_ws_tail': ('', '\n\n')
+                     }[kind]
+        return (pre + json.dumps(d, indent=1) + post).encode(), \
+            'application/json', d
     if kind in ('full_big', 'full_huge'):
         # a well-formed error object of unusual size (a stack trace in
         # 'cause'): still an error object
@@ -580,7 +589,9 @@ def op_strategy():
                                 'array', 'text', 'empty', 'true',
                                 'null_message', 'null_error', 'full_latin1',
                                 'full_utf8_raw', 'full_utf8_charset',
-                                'full_big', 'full_huge'])
+                                'full_big', 'full_huge', 'full_ws_lf',
+                                'full_ws_crlf', 'full_ws_sp',
+                                'full_ws_tail'])
     err = st.tuples(st.sampled_from(ERR_STATUS), err_body)
     user = st.sampled_from(['alice@example.org', 'bob', 'é'])
     pw = st.sampled_from(['hunter2', ''])
@@ -613,7 +624,8 @@ def t_subsets(ctx, lo, hi):
                (403, 'null_message'), (503, 'null_error'),
                (403, 'full_latin1'), (401, 'full_utf8_raw'),
                (403, 'full_utf8_charset'), (500, 'full_big'),
-               (403, 'full_huge')]
+               (403, 'full_huge'), (403, 'full_ws_lf'),
+               (400, 'full_ws_crlf'), (403, 'full_ws_sp')]
     for init in subsets:
         for rep in replies:
             for op in (('authenticate', 'u', 'p', False),
@@ -641,7 +653,7 @@ def t_subsets(ctx, lo, hi):
             history_case(ctx, {'initial': [True] * 5, 'ops': ops})
     ctx.sample({'initial': [True, True, False, True, False],
                 'ops': [('refresh', 403, 'full')]}, 'subsets')
-    ctx.exhaustive_done('all 32 initial field subsets x 7 operations x 13 '
+    ctx.exhaustive_done('all 32 initial field subsets x 7 operations x 16 '
                         'reply classes (single step)')
 
 
